@@ -32,6 +32,11 @@ func init() {
 		params(c, &p)
 		c18ReaderByte(r, p.Byte)
 	})
+	scenario("C18", "headercfg", func(r *core.Run, c core.Case) {
+		var p C18Cfg
+		params(c, &p)
+		c18HeaderCfg(r, p, c18Table())
+	})
 	scenario("C18", "header", func(r *core.Run, c core.Case) {
 		var p struct{ DictCap, Pre, Hist int }
 		params(c, &p)
@@ -182,6 +187,59 @@ func c18HeaderHist(r *core.Run, dictCap, pre, hist int, t [41]int64) {
 	r.Nontrivial(core.Hash("hdr", code))
 }
 
+// c18HeaderCfg: the code in EVERY block header must be the one for the configured capacity whatever
+// the other configuration fields are (match finder, block size below the capacity, look-ahead size
+// above it, check type, properties): they must not leak into the declared dictionary size.
+func c18HeaderCfg(r *core.Run, p C18Cfg, t [41]int64) {
+	cs := core.MkCase("C18", "headercfg", p)
+	cfg := xz.WriterConfig{DictCap: p.DictCap, BufSize: p.BufSize, BlockSize: int64(p.BlockSize), Matcher: lzma.MatchAlgorithm(p.Matcher), CheckSum: byte(p.Check)}
+	if p.LP > 0 {
+		cfg.Properties = &lzma.Properties{LC: 1, LP: p.LP, PB: 0}
+	}
+	if cfg.Verify() != nil {
+		r.Count("headercfg_rejected_by_Verify", 1)
+		return
+	}
+	var sink sinkBuf
+	var err error
+	pan := core.Guard(func() {
+		var w *xz.Writer
+		w, err = xz.WriterConfig{DictCap: p.DictCap, BufSize: p.BufSize, BlockSize: int64(p.BlockSize), Matcher: lzma.MatchAlgorithm(p.Matcher), CheckSum: byte(p.Check), Properties: cfg.Properties}.NewWriter(&sink)
+		if err == nil {
+			_, err = w.Write(textBytes(91, 9000))
+			if err == nil {
+				err = w.Close()
+			}
+		}
+	})
+	desc := fmt.Sprintf("%+v", p)
+	if pan != nil || err != nil {
+		r.Violate(cs, "header writer-fails (configuration product)", desc, fmt.Sprint(pan, err), "a stream")
+		return
+	}
+	x := ref.DecodeXZ(sink.b, ref.XZOptions{})
+	if x.Err != nil || len(x.Streams) != 1 || len(x.Streams[0].Blocks) == 0 {
+		r.Violate(cs, "header unparsable (configuration product)", desc, fmt.Sprint(x.Err), "valid stream")
+		return
+	}
+	dc := p.DictCap
+	if dc == 0 {
+		dc = 8 << 20
+	}
+	want := c18Want(int64(dc), t)
+	for i, b := range x.Streams[0].Blocks {
+		if int(b.DictCode) != want {
+			r.Violate(cs, "header wrong-dict-code (depends on another configuration field)", desc, fmt.Sprintf("block %d: code %d", i, b.DictCode), fmt.Sprintf("code %d", want))
+			break
+		}
+	}
+	r.Eval(core.Hash("hdrcfg", desc, len(x.Streams[0].Blocks)))
+	r.Nontrivial(core.Hash("hdrcfg", want, p.Matcher, p.BlockSize > 0, p.BufSize))
+}
+
+// C18Cfg is one point of the configuration product of c18HeaderCfg.
+type C18Cfg struct{ DictCap, BufSize, BlockSize, Matcher, Check, LP int }
+
 type sinkBuf struct{ b []byte }
 
 func (s *sinkBuf) Write(p []byte) (int, error) { s.b = append(s.b, p...); return len(p), nil }
@@ -306,6 +364,24 @@ func runC18(r *core.Run) {
 		r.Workers = 4 // memory: each writer allocates DictCap + hash table
 	}
 	r.Parallel(len(caps), "block header dictionary byte", func(i int) { c18Header(r, caps[i], t) })
+	// configuration product: capacity x match finder x block size x look-ahead size x check x lp
+	var pc []C18Cfg
+	for _, dc := range []int{4096, 6144, 65536, 1 << 20, 0} {
+		for m := 0; m < 2; m++ {
+			for _, bs := range []int{0, 1000, 4096, 8192, 100000} {
+				for _, buf := range []int{0, 273, 8192, 70000} {
+					for _, ck := range []int{0, 1, 10} {
+						if m == 1 && dc == 0 {
+							continue // BinaryTree with the 8 MiB default: allocation cost
+						}
+						pc = append(pc, C18Cfg{DictCap: dc, BufSize: buf, BlockSize: bs, Matcher: m, Check: ck, LP: (bs / 1000) % 3})
+					}
+				}
+			}
+		}
+	}
+	r.Parallel(len(pc), "block header dictionary byte over the configuration product", func(i int) { c18HeaderCfg(r, pc[i], t) })
+	r.Count("headers_checked_configuration_product", int64(len(pc)))
 	// configuration histories: all ordered pairs of a capacity menu x {Verify, earlier writer}
 	hm := []int{4096, 4097, 6144, 65536, 1 << 20, 1<<20 + 1, 3 << 20, 8 << 20}
 	type hc struct{ pre, dc, hist int }
